@@ -362,6 +362,19 @@ func (f *Frame) applyContract(ct *Contract, fn *ssa.Function, sig *types.Signatu
 			}
 		}
 	}
+	if ct.MayPanic && !f.pure {
+		// C18: a panic raised by this callee must be caught before it leaves the goroutine's entry function
+		goal := tFalse
+		top := f.top()
+		for _, d := range top.defers {
+			if deferRecovers(d) {
+				if flag, ok := st.H[d.key]; ok {
+					goal = Or(goal, flag)
+				}
+			}
+		}
+		un.obligeNamed(st, fmt.Sprintf("escape:%s@%s", shortFn(name), un.posOf(pos)), "escape", "a panic of "+shortFn(name)+" is recovered by a deferred function of "+top.fn.Name(), un.posOf(pos), goal)
+	}
 	for _, rq := range ct.Requires {
 		g := f.evalClause(rq, env, st, st)
 		if f.pure {
@@ -999,3 +1012,26 @@ func (f *Frame) top() *Frame {
 }
 
 func (f *Frame) topFn() *ssa.Function { return f.top().fn }
+
+// deferRecovers: the deferred call is a closure whose body calls recover().
+func deferRecovers(d deferred) bool {
+	var fn *ssa.Function
+	if mc, ok := d.call.Value.(*ssa.MakeClosure); ok {
+		fn, _ = mc.Fn.(*ssa.Function)
+	} else if sc := d.call.StaticCallee(); sc != nil {
+		fn = sc
+	}
+	if fn == nil {
+		return false
+	}
+	for _, b := range fn.Blocks {
+		for _, ins := range b.Instrs {
+			if c, ok := ins.(*ssa.Call); ok {
+				if bi, ok := c.Call.Value.(*ssa.Builtin); ok && bi.Name() == "recover" {
+					return true
+				}
+			}
+		}
+	}
+	return false
+}
